@@ -27,9 +27,17 @@ import (
 )
 
 const (
-	repoDir   = "/repo"
 	verifDir  = "/verif"
 	zzPkgPath = "github.com/honeycombio/refinery/internal/zzverif"
+)
+
+// The registered commands always check /repo and write /verif/out and /verif/evidence.
+// tools/run_seeds.sh sets SSASYM_REPO (a scratch worktree with a seeded change applied) and
+// SSASYM_SCRATCH (where out/ and evidence/ go instead) to try seeded changes in parallel
+// without touching /repo or the committed evidence.
+var (
+	repoDir    = envOr("SSASYM_REPO", "/repo")
+	scratchDir = envOr("SSASYM_SCRATCH", verifDir)
 )
 
 type KnownFinding struct {
@@ -569,7 +577,7 @@ func doCheck(id, tier, only string, verbose bool, workers, seed int, noNative bo
 	}
 	loadWall := time.Since(t0)
 	models := collectModels(prog, pkgs, id)
-	outDir := filepath.Join(verifDir, "out", id)
+	outDir := filepath.Join(scratchDir, "out", id)
 	os.RemoveAll(outDir)
 	os.MkdirAll(filepath.Join(outDir, "replay"), 0755)
 
@@ -990,8 +998,8 @@ func writeEvidence(id, tier string, seed int, sums []*Summary, loadWall, wall ti
 		},
 	}
 	b, _ := json.MarshalIndent(ev, "", " ")
-	os.MkdirAll(filepath.Join(verifDir, "evidence"), 0755)
-	os.WriteFile(filepath.Join(verifDir, "evidence", id+".json"), b, 0644)
+	os.MkdirAll(filepath.Join(scratchDir, "evidence"), 0755)
+	os.WriteFile(filepath.Join(scratchDir, "evidence", id+".json"), b, 0644)
 }
 
 func doReplayCmd(id, replay string) int {
@@ -1021,7 +1029,7 @@ func doReplayCmd(id, replay string) int {
 		}
 	}
 	abs, _ := filepath.Abs(replay)
-	res, err := runNative(files, rf.Package, pkgName, []string{rf.Harness}, []string{abs}, filepath.Join(verifDir, "out", id, "native-replay"))
+	res, err := runNative(files, rf.Package, pkgName, []string{rf.Harness}, []string{abs}, filepath.Join(scratchDir, "out", id, "native-replay"))
 	if err != nil {
 		fmt.Fprintln(os.Stderr, err)
 		return 2
